@@ -299,6 +299,13 @@ impl BuildJob<'_> {
         let mut dof = state::File::from_name(&mut ptx, &df.do_dir.join(&df.do_file), true)?;
         dof.set_static(ptx.state().env())?;
         dof.save(&mut ptx)?;
+        // From here until record_new_state() the record of the target is in
+        // flux: its old dependencies are marked for deletion, the .do file
+        // has just been re-stamped, and the new stamp is not known yet.
+        // Say so in the same transaction, or the target can look clean to
+        // whoever examines it in the meantime.
+        sf.set_stamp(Stamp::BUILDING);
+        sf.save(&mut ptx)?;
         let ps = ptx.commit().map_err(RedoError::opaque_error)?;
         logs::meta("do", state::target_relpath(ps.env(), &t)?.as_str(), None);
 
